@@ -444,6 +444,32 @@ func (d *cnDriver) step() error {
 			metas = append(metas, cnTxMeta{&twin, raw2})
 		}
 	}
+	if d.rng.Intn(8) == 0 {
+		// reclaim burst: every delegator of one escrow account - the account itself included - reclaims a little in this block, and
+		// the account reclaims what it delegated elsewhere: all these debonding entries end in the same epoch and are paid in one
+		// epoch transition, in the order of the delegators' addresses, with the escrow account also in the role of a delegator
+		if dl, ok := d.lastProj["del"].([][]any); ok && len(dl) > 0 {
+			target := fmt.Sprintf("E%d", d.rng.Intn(n.cfg.Validators))
+			for _, e := range dl {
+				who, _ := e[0].(string)
+				to, _ := e[1].(string)
+				own, _ := e[2].(int64)
+				if own < 2 || (to != target && who != target) || (who == "E1" && to == "E1") {
+					continue
+				}
+				if _, isAcct := n.account(who); !isAcct {
+					continue // (runtime accounts and vaults do not sign transactions)
+				}
+				sp := cnTxSpec{Kind: "reclaim", Signer: who, To: to, Amount: 1 + int64(d.rng.Intn(int(min(own-1, 6)))), Gas: 2000, Validity: "ok",
+					Nonce: uint64(d.acctField(who, "n")) + nonceBump[who]}
+				if raw, err := n.buildTx(&sp, d.rng); err == nil {
+					nonceBump[who]++
+					spc := sp
+					metas = append(metas, cnTxMeta{&spc, raw})
+				}
+			}
+		}
+	}
 	// keep the documented precondition of C10: nodes re-register before they expire (one node may lapse now and then)
 	epochNow := (h - 1) / n.cfg.EpochInterval
 	renew := (h-1)%n.cfg.EpochInterval == n.cfg.EpochInterval-2 || n.cfg.EpochInterval < 3
